@@ -88,6 +88,9 @@ fn alphabet(_b: &Built) -> Vec<Op> {
     // reposition_liquidity_v2 nets the old range's withdrawal against the new range's deposit and moves only the difference
     a.push(Op::Repos { pos: 0, lower: -64, upper: 192, liq: stdworlds::BIG / 2 });
     a.push(Op::Repos { pos: 0, lower: -128, upper: 128, liq: stdworlds::BIG * 2 });
+    // to the other side of the price: the old range returns nothing of the token the new range needs
+    a.push(Op::Repos { pos: 0, lower: 256, upper: 512, liq: stdworlds::BIG });
+    a.push(Op::Repos { pos: 1, lower: -512, upper: -256, liq: 777 });
     a
 }
 
@@ -102,6 +105,8 @@ struct Stats {
     decs: u64,
     bound_reruns: u64,
     bound_failures: u64,
+    repos_tight_max: u64,
+    repos_tight_max_with_fee: u64,
     c03: C03Stats,
 }
 
@@ -296,7 +301,36 @@ fn repos_oracle(wd: &W, pre: &Ledger, st: &Stepped, pos: usize, new_lower: i32, 
     }
     s.incs += 1;
     s.decs += 1;
+    // "the user pays no more than their stated maximum": with a maximum one unit below what the owner was actually debited
+    // (transfer fee included) the instruction must refuse. (Nothing is demanded for maxima >= the debit: the program is
+    // entitled to be stricter and bounds the whole fee-including new-range amount.)
+    for t in 0..2 {
+        let dw = balance(pre, &wallet[t]) as i128 - balance(post, &wallet[t]) as i128;
+        if dw <= 0 {
+            continue;
+        }
+        let tight = (dw - 1) as u64;
+        let (maxa, maxb) = if t == 0 { (tight, u64::MAX) } else { (u64::MAX, tight) };
+        let mut c = pre.clone();
+        let o = svm::process(&mut c, &world::ix_reposition_v2(&p, &w.lp, w.funder, new_lower, new_upper, new_liq, 0, 0, maxa, maxb));
+        s.bound_reruns += 1;
+        s.repos_tight_max += 1;
+        if dv_of(pre, post, &vault[t]) < dw {
+            s.repos_tight_max_with_fee += 1;
+        }
+        if o.ok() {
+            return Err(format!(
+                "reposition to [{new_lower}..{new_upper}) L {new_liq}: owner is debited {dw} of token {} (transfer fee included) although the stated maximum is {tight}",
+                if t == 0 { "A" } else { "B" }
+            ));
+        }
+        s.bound_failures += 1;
+    }
     Ok(())
+}
+
+fn dv_of(pre: &Ledger, post: &Ledger, vault: &solana_program::pubkey::Pubkey) -> i128 {
+    balance(post, vault) as i128 - balance(pre, vault) as i128
 }
 
 fn model<'a>(wd: &'a W, stats: &'a Mutex<Stats>) -> PoolModel<'a> {
@@ -340,6 +374,8 @@ fn model<'a>(wd: &'a W, stats: &'a Mutex<Stats>) -> PoolModel<'a> {
             g.decs += local.decs;
             g.bound_reruns += local.bound_reruns + local.c03.threshold_reruns;
             g.bound_failures += local.bound_failures + local.c03.threshold_failures_seen;
+            g.repos_tight_max += local.repos_tight_max;
+            g.repos_tight_max_with_fee += local.repos_tight_max_with_fee;
             r
         }),
     )
@@ -375,6 +411,8 @@ pub fn run(ctx: &Ctx) -> Report {
         r.guard("handler_increases_checked", s.incs);
         r.guard("handler_decreases_checked", s.decs);
         r.guard("handler_bound_failures_seen", s.bound_failures);
+        r.guard("handler_reposition_tight_maximum_reruns", s.repos_tight_max);
+        r.guard("handler_reposition_tight_maximum_reruns_with_transfer_fee", s.repos_tight_max_with_fee);
     }
     r.set("exhaustive", false);
     r.assume("svm-lite faithfully replaces the validator (DESIGN §2.1); the Token-2022 processor is the real one (withheld fees stay in the recipient account, so `amount` deltas are the net amounts)");
